@@ -257,7 +257,7 @@ func (x *Engine) verifyFunc(fs *FuncSpec, cs *Clause, prop string) (rep *FuncRep
 				o.Props = c.Props
 			}
 			// cover: the antecedent of an implication must be reachable
-			if c.Expr.Op == "binary" && c.Expr.Name == "==>" {
+			if c.Expr.Op == "binary" && c.Expr.Name == "==>" && cs == nil {
 				ant := x.safeEvalBool(ev, &Clause{Expr: c.Expr.Args[0], Text: c.Text, File: c.File, Line: c.Line})
 				x.obls = append(x.obls, &Obl{Name: x.curFn + "#cover[" + lab + "]", Func: x.curFn, Kind: "cover", Label: lab, Props: o.Props, NScript: len(x.script), Goal: notTerm(ant), Live: ret.live, Text: "antecedent reachable: " + c.Text, Expect: "sat"})
 			}
